@@ -298,9 +298,9 @@ func runProp(p *Program, id, tier string) (r *Result) {
 	return ra
 }
 
-// noViewProps: properties whose rules are whole-program dataflow analyses over the call graph of the code as
-// written; they do not depend on how functions are split up and are not re-evaluated on views.
-var noViewProps = map[string]bool{"C18": true}
+// noViewProps: properties that are not re-evaluated on views (none now: the taint analysis of C18 runs on the
+// views too, which gives it one calling context per caller for the helpers folded in).
+var noViewProps = map[string]bool{}
 
 // finalRules: a violation of these rules on the code as written is not re-examined on views.
 // (R-NILCHECK is not among them: on views a folded `return nil` shows up as a pointer phi with a nil alternative,
